@@ -1,7 +1,11 @@
 """C02 — code with holes matches the code it was cut from, binding each hole exactly."""
 ENTRY = {
-    "lean_modules": ["AstGrepVerif.Props.C02"],
+    "lean_modules": ["AstGrepVerif.Props.C02", "AstGrepVerif.Props.Tables"],
     "theorems": [
+        "AGV.Tables.match_terminal_table_agrees",
+        "AGV.Tables.skip_trailing_table_agrees",
+        "AGV.Tables.skip_goal_table_agrees",
+        "AGV.Tables.error_kind_agrees",
         "AGV.C02.self_match",
         "AGV.C02.cut_matches_from",
         "AGV.C02.cut_matches",
